@@ -134,7 +134,10 @@ def velocity_cases(draw):
     parts = [{"x": pos(), "best": pos()} for _ in range(draw(st.integers(1, 4)))]
     leaders = [pos() for _ in range(draw(st.integers(1, 3)))]
     return {"alg": draw(st.sampled_from(ALGS)), "boxes": bxs, "parts": parts, "leaders": leaders,
-            "seed": draw(st.integers(0, 2 ** 31)), "v": [draw(st.floats(-1e9, 1e9)) for _ in range(n)]}
+            "seed": draw(st.integers(0, 2 ** 31)), "v": [draw(st.floats(-1e9, 1e9)) for _ in range(n)],
+            # the same algorithm object worked on another box of the same dimension before (a study that edits the
+            # bounds in place between two runs): limits follow the box declared at the time of the update
+            "pre": draw(st.one_of(st.none(), st.none(), boxes(n)))}
 
 
 def check_velocity(case):
@@ -143,7 +146,11 @@ def check_velocity(case):
     prob = None
     try:
         with guard("velocity"):
-            prob, alg = _alg(case["alg"], bxs)
+            prob, alg = _alg(case["alg"], case.get("pre") or bxs)
+            if case.get("pre"):
+                _warm_up(alg, case["pre"], case["seed"])
+                for p_, b in zip(prob.parameters, bxs):
+                    p_["bounds"] = list(b)
             for j, l in enumerate(case["leaders"]):
                 ind = IndividualSwarm(list(l))
                 ind.costs_signed = [float(j), float(-j), True]
@@ -175,7 +182,24 @@ def check_velocity(case):
     finally:
         if prob is not None:
             dispose(prob)
-    return {"nt": True, "classes": [case["alg"]]}
+    return {"nt": True, "classes": [case["alg"]] + (["box-edited"] if case.get("pre") else [])}
+
+
+def _warm_up(alg, bxs, seed):
+    """one velocity and one position update on the box the algorithm was created with"""
+    from artap.algorithm_swarm import IndividualSwarm
+    from artap.archive import Archive
+    mid = [(b[0] + b[1]) / 2.0 for b in bxs]
+    lead = IndividualSwarm(list(mid))
+    lead.costs_signed = [0.0, 0.0, True]
+    lead.features["crowding_distance"] = 0.0
+    alg.leaders.add(lead)
+    ind = IndividualSwarm([b[0] + 0.25 * (b[1] - b[0]) for b in bxs])
+    ind.features["best_vector"] = list(mid)
+    random.seed(seed)
+    alg.update_velocity([ind])
+    alg.update_position([ind])
+    alg.leaders = Archive()          # as the constructors of the three algorithms create it
 
 
 # ---------------------------------------------------------------- position
@@ -189,7 +213,8 @@ def position_cases(draw):
         x = [b[0] + draw(far) * (b[1] - b[0]) for b in bxs]
         v = [draw(st.one_of(st.floats(-2.0, 2.0), st.floats(-1e6, 1e6), st.just(0.0))) * (b[1] - b[0]) for b in bxs]
         parts.append({"x": x, "v": v})
-    return {"alg": draw(st.sampled_from(ALGS)), "boxes": bxs, "parts": parts}
+    return {"alg": draw(st.sampled_from(ALGS)), "boxes": bxs, "parts": parts,
+            "pre": draw(st.one_of(st.none(), st.none(), boxes(n)))}
 
 
 def check_position(case):
@@ -200,7 +225,11 @@ def check_position(case):
     crossed = False
     try:
         with guard("position"):
-            prob, alg = _alg(case["alg"], bxs)
+            prob, alg = _alg(case["alg"], case.get("pre") or bxs)
+            if case.get("pre"):
+                _warm_up(alg, case["pre"], 0)
+                for p_, b in zip(prob.parameters, bxs):
+                    p_["bounds"] = list(b)
             swarm = []
             for p in case["parts"]:
                 ind = IndividualSwarm(list(p["x"]))
@@ -228,7 +257,8 @@ def check_position(case):
     finally:
         if prob is not None:
             dispose(prob)
-    return {"nt": crossed, "classes": [case["alg"], "crossed" if crossed else "inside"]}
+    return {"nt": crossed, "classes": [case["alg"], "crossed" if crossed else "inside"] + (
+        ["box-edited"] if case.get("pre") else [])}
 
 
 # ---------------------------------------------------------------- leaders during runs
